@@ -11,7 +11,7 @@ def run(ctx):
         r = wf.gen(ctx, mode, level if mode in ("mutant", "short") else 1)
         states += r.distinct
         trans += r.generated
-        summary, mism = wf.execute(ctx, r.outfile)
+        summary, mism = wf.execute(ctx, r.outfile, timeout=1800 if ctx.quick() else 7200)
         wf.report(ctx, mism, {"C13"})
         cases += sum(summary["cases"].values())
         accepted += summary.get("accepted_by_parser", 0)
